@@ -277,7 +277,9 @@ func c13EndToEnd(r *hx.Run, rnd *rand.Rand, n int) {
 		best := compress.Get("bestCompression")
 		for i := 0; i < n && !r.TooMany(); i++ {
 			size = sp.minLen + []int{-1, 0, 1, 500, 5000}[rnd.Intn(5)]
-			ct = []string{"text/html", "application/json", "image/png", "application/vnd.custom"}[rnd.Intn(4)]
+			// (also values with parameters, sloppy parameter syntax and other letter case: the filter is a
+			// regular expression over the header value as it was sent)
+			ct = []string{"text/html", "application/json", "image/png", "application/vnd.custom", "text/html; charset=utf-8", "text/css;;charset=utf-8", "text/html; charset", "application/javascript; charset=utf 8", "TEXT/HTML", "text/plain, text/html"}[rnd.Intn(10)]
 			kind = []string{"text", "runs", "rand"}[rnd.Intn(3)]
 			cacheable = rnd.Intn(3) != 0
 			upEnc = []string{"", "", "", "gzip", "br"}[rnd.Intn(5)]
